@@ -96,6 +96,7 @@ type config struct {
 	Outs        []int  `json:"allowed_outcomes"`
 	HC          bool   `json:"health_check_round,omitempty"`         // a thread runs one active health-check round (probe succeeds) at any time
 	UpLines     bool   `json:"backends_on_upstream_lines,omitempty"` // backends named by `upstream` lines inside the block, above the options
+	HCFailFirst bool   `json:"health_check_fails_first,omitempty"`   // the health-check thread runs a round whose probes fail, then one whose probes succeed
 }
 
 func (c config) block() string {
@@ -168,6 +169,13 @@ func (t *fakeRT) RoundTrip(r *http.Request) (*http.Response, error) {
 }
 
 type tidKey struct{}
+
+// probeFail answers every active health probe with 503.
+type probeFail struct{}
+
+func (probeFail) RoundTrip(r *http.Request) (*http.Response, error) {
+	return &http.Response{StatusCode: 503, Header: http.Header{}, Body: io.NopCloser(strings.NewReader("down")), Request: r}, nil
+}
 
 // probeOK answers every active health probe with 200.
 type probeOK struct{}
@@ -315,6 +323,10 @@ func explore(rep *kit.Report, cfg config, bound int) {
 		w.ready = true
 		if cfg.HC {
 			verifrt.GoNamed("health-check", func() {
+				if cfg.HCFailFirst {
+					proxy.VerifHealthCheck(ups[0], "/health", probeFail{})
+					w.events = append(w.events, "health-check-round-failed")
+				}
 				proxy.VerifHealthCheck(ups[0], "/health", probeOK{})
 				w.events = append(w.events, "health-check-round-done")
 			})
@@ -537,7 +549,7 @@ func tail(s string, n int) string {
 
 func main() {
 	rep := kit.NewReport("C14", "model_checking",
-		"N concurrent requests through the instrumented proxy.ServeHTTP on one upstream block: backends {1,2} x max_conns {0,1,2} x max_fails {1,2} x fail_timeout {0,10s} x try_duration {0,50ms (two attempts)} x policy {first, round_robin, least_conn}; every per-attempt outcome in {ok,error,client-cancel,panic}; for counted failures also with one active health-check round as a further thread; all schedules up to the preemption bound; invariants at every scheduling point; distinct_nontrivial = configuration classes")
+		"N concurrent requests through the instrumented proxy.ServeHTTP on one upstream block: backends {1,2} x max_conns {0,1,2} x max_fails {1,2} x fail_timeout {0,10s} x try_duration {0,50ms (two attempts)} x policy {first, round_robin, least_conn}; every per-attempt outcome in {ok,error,client-cancel,panic}; for counted failures also with an active health-check thread (one successful round, or a failing round followed by a successful one); all schedules up to the preemption bound; invariants at every scheduling point; distinct_nontrivial = configuration classes")
 	kit.Init()
 	if !rep.IsWorker() {
 		rep.Assume("third-party/net/http code and the fake transports are atomic between scheduling points; plain (unsynchronised) accesses are covered by the separate free-running -race pass")
@@ -606,9 +618,10 @@ func main() {
 											rep.Capped(fmt.Sprintf("deadline reached at preemption bound %d", L))
 											rep.Finish()
 										}
-										explore(rep, config{be, mc, mf, ft, td, pol, N, []int{outOK, outErr, outCancel, outPanic}, false, false}, L)
+										explore(rep, config{be, mc, mf, ft, td, pol, N, []int{outOK, outErr, outCancel, outPanic}, false, false, false}, L)
 										if N == 2 && mc == 0 && ft != "0s" && pol == "first" {
-											explore(rep, config{be, mc, mf, ft, td, pol, N, []int{outOK, outErr}, true, false}, L)
+											explore(rep, config{be, mc, mf, ft, td, pol, N, []int{outOK, outErr}, true, false, false}, L)
+											explore(rep, config{be, mc, mf, ft, td, pol, N, []int{outOK, outErr}, true, false, true}, L)
 										}
 									}
 								}
@@ -679,18 +692,20 @@ func main() {
 									rep.Capped("deadline reached")
 									rep.Finish()
 								}
-								explore(rep, config{be, mc, mf, ft, td, pol, N, outs, false, false}, bound)
+								explore(rep, config{be, mc, mf, ft, td, pol, N, outs, false, false, false}, bound)
 								if N == 2 && mc == 1 && ft != "0s" && td == "0s" && pol == "first" {
 									// the same block written with `upstream` lines above its options
-									explore(rep, config{be, mc, mf, ft, td, pol, N, []int{outOK, outErr}, false, true}, bound)
+									explore(rep, config{be, mc, mf, ft, td, pol, N, []int{outOK, outErr}, false, true, false}, bound)
 								}
 								if N == 2 && be == 2 && mc == 1 && mf == 1 && td == "0s" && pol == "round_robin" {
 									// a hashing policy meets the connection cap (both requests carry the same key)
-									explore(rep, config{be, mc, mf, ft, td, "ip_hash", N, []int{outOK, outErr}, false, false}, bound)
+									explore(rep, config{be, mc, mf, ft, td, "ip_hash", N, []int{outOK, outErr}, false, false, false}, bound)
 								}
 								if N == 2 && mc == 0 && ft != "0s" && td == "0s" && pol == "first" {
 									// the same traffic with an active health-check round (successful probes) running at any time
-									explore(rep, config{be, mc, mf, ft, td, pol, N, []int{outOK, outErr}, true, false}, bound)
+									explore(rep, config{be, mc, mf, ft, td, pol, N, []int{outOK, outErr}, true, false, false}, bound)
+									// ... and with a round of failing probes before the successful one (the backend is marked unhealthy, then recovers)
+									explore(rep, config{be, mc, mf, ft, td, pol, N, []int{outOK, outErr}, true, false, true}, bound)
 								}
 							}
 						}
